@@ -281,3 +281,25 @@ Proof.
         destruct (place_after_pred s3 c2 i1 x2 d' _ a1 b1 P2 S3 eq_refl NDr3) as (c2' & Hc2' & Hr4).
         exact (Fin s3 _ a1 c2' b1 Hr4 S3 Hc2' eq_refl).
 Qed.
+
+(* ---------- cellNext moves one place to the right; rowFirstCell has the whole row after it ---------- *)
+Lemma next_rest d c c2 : NoDup (map p_id (cells_of d)) ->
+  match find_row (d_rows d) c 0 with Some (_, _, _, _, b) => Reorder.head_id b | None => None end = Some c2 ->
+  exists k, rest d c = Some (S k) /\ rest d c2 = Some k.
+Proof.
+  intros ND. unfold rest. destruct (find_row (d_rows d) c 0) as [[[[[i r] a] m] b]|] eqn:F; [|discriminate].
+  destruct b as [|n b']; cbn [Reorder.head_id]; [discriminate|]. intros [= <-].
+  destruct (find_row_place _ _ _ _ _ _ _ F) as (N & C & _).
+  exists (length b'). split; [reflexivity|].
+  assert (C' : dr_cells r = (a ++ [m]) ++ n :: b') by (rewrite C, <- app_assoc; reflexivity).
+  pose proof (rest_at d i r (a ++ [m]) n b' ND N C') as R. unfold rest in R. exact R.
+Qed.
+
+Lemma first_rest d r c t : NoDup (map p_id (cells_of d)) ->
+  match nth_error (d_rows d) r with Some rw => map p_id (dr_cells rw) | None => [] end = c :: t ->
+  rest d c = Some (length t).
+Proof.
+  intros ND. destruct (nth_error (d_rows d) r) as [rw|] eqn:N; [|discriminate].
+  destruct (dr_cells rw) as [|m l] eqn:C; cbn [map]; [discriminate|]. intros [= <- <-].
+  rewrite map_length. exact (rest_at d r rw [] m l ND N C).
+Qed.
